@@ -645,6 +645,10 @@ def gen_fsm_case(r, run_model, nsteps=None, good_tail=0, cache_ver=None, faults=
             tape.append("dt:%d" % r.choice([1, 59, 61, retry, refresh]))
     if prev is not None and len(tape) > prev[0]:
         flush_closed(prev[0], prev[1], prev[2], run_model(script()))
+    if r.random() < 0.5:
+        # the cache goes silent: the state-machine thread stays alive inside recv and `run stop` below is the real rtr_stop on a
+        # running thread (cancel at a cancellation point, join, purge); for the model the script simply ends here
+        tape.append("hang")
     ops = script() + ["show", "dump", "run stop", "show", "dump"]
     c.ops = ops
     c.meta = {"used": used, "cache_p": set(cache.p), "cache_k": set(cache.k), "cver": cver, "good_tail": good_tail, "good_from": good_from,
